@@ -66,8 +66,11 @@ func readTlvStream(
 			}
 		}
 
-		// If less than one packet space remains in buffer, shift to beginning
-		if recvOff-tlvOff < defn.MaxNDNPacketSize {
+		// Move the unread bytes to the beginning. At most MaxNDNPacketSize bytes are
+		// pending here (more is rejected above); the bound is inclusive so that a
+		// full buffer holding exactly that many is compacted too instead of being
+		// read into with no room left, forever.
+		if recvOff-tlvOff <= defn.MaxNDNPacketSize {
 			copy(recvBuf, recvBuf[tlvOff:recvOff])
 			recvOff -= tlvOff
 			tlvOff = 0
